@@ -6,6 +6,7 @@ import (
 	"go/types"
 	"math"
 	"sort"
+	"strings"
 
 	"dawnverif/checker/core"
 
@@ -670,6 +671,83 @@ func checkRecordConsumers(p *core.Prog, r *core.Result) {
 	closure := staticClosure(p, roots...)
 	frozen := map[string]string{
 		"(*dawn.function).diffEnv": "internal invariant: both operands were just type-asserted to *starlark.Dict and found unequal, so DiffDepth returns a *MappingDiff",
+	}
+	// the frozen exception rests on a belief about diff.DiffDepth - verify it: whenever both operands are
+	// IterableMappings (two dicts), every successful non-nil return of DiffDepth is the result of diffMapping
+	if dd, dm := p.Func("diff", "", "DiffDepth"), p.Func("diff", "", "diffMapping"); dd != nil && dm != nil {
+		var oks []ssa.Value
+		core.Instrs(dd, func(in ssa.Instruction) {
+			ta, ok := in.(*ssa.TypeAssert)
+			if !ok || !ta.CommaOk || !strings.HasSuffix(ta.AssertedType.String(), "starlark.IterableMapping") {
+				return
+			}
+			if _, isPrm := ta.X.(*ssa.Parameter); !isPrm {
+				return
+			}
+			for _, ref := range *ta.Referrers() {
+				if e, ok := ref.(*ssa.Extract); ok && e.Index == 1 {
+					oks = append(oks, e)
+				}
+			}
+		})
+		bothTrue := func(fs core.FactSet) bool {
+			n := 0
+			for _, okv := range oks {
+				if fs.Find(func(c ssa.Value, v bool) bool { return c == okv && v }) {
+					n++
+				}
+			}
+			return len(oks) >= 2 && n == len(oks)
+		}
+		holdsBelief := len(oks) >= 2
+		var at ssa.Instruction
+		for _, ret := range core.ReturnsOf(dd) {
+			vals := core.RetVals(ret)
+			if len(vals) != 2 || !core.IsNilConst(vals[1]) && func() bool { _, isE := vals[1].(*ssa.Extract); return !isE }() {
+				continue
+			}
+			if core.IsNilConst(vals[0]) {
+				continue
+			}
+			fromMapping := core.DependsOn(vals[0], core.SliceOpts{}, func(v ssa.Value) bool {
+				c, ok := v.(*ssa.Call)
+				return ok && core.Callee(c) == dm
+			})
+			if fromMapping {
+				continue
+			}
+			// can this return be reached with both operands being mappings? look at every edge into its block
+			// (walking up single-predecessor chains)
+			b := ret.Block()
+			for len(b.Preds) == 1 && !bothTrue(p.FactsAt(b.Instrs[0])) {
+				q := b.Preds[0]
+				si := 0
+				for k, sc := range q.Succs {
+					if sc == b {
+						si = k
+					}
+				}
+				if bothTrue(p.EdgeFacts(q, si)) {
+					holdsBelief, at = false, ret
+				}
+				b = q
+			}
+			if bothTrue(p.FactsAt(ret)) {
+				holdsBelief, at = false, ret
+			}
+			for _, q := range b.Preds {
+				for k, sc := range q.Succs {
+					if sc == b && bothTrue(p.EdgeFacts(q, k)) {
+						holdsBelief, at = false, ret
+					}
+				}
+			}
+		}
+		pos := p.Pos(dd.Pos())
+		if at != nil {
+			pos = p.InstrPos(at)
+		}
+		r.Check(holdsBelief, "R15.7", "diff.DiffDepth#mapping-operands-give-MappingDiff", pos, "for two mapping operands every non-nil result of DiffDepth is diffMapping's: the invariant that (*function).diffEnv panics on cannot be violated by a decoded record", "DiffDepth can return something other than diffMapping's result although both operands are mappings: (*function).diffEnv asserts *MappingDiff and panics otherwise - a corrupted record whose stamp decodes to a dict without any environment key then crashes the build on a runner goroutine instead of being reported")
 	}
 	var fns []*ssa.Function
 	for f := range closure {
